@@ -380,6 +380,23 @@ pub fn run_c17(sink: &mut dyn Sink) {
     all_wrappers(sink, "MapNone", vec![MapNone(BTreeMap::new()), MapNone([("k".to_string(), 1u8)].into_iter().collect())]);
     all_wrappers(sink, "Ext<u8>", vec![Ext::Unit, Ext::New(1u8), Ext::Tup(2, 3), Ext::Str { a: 4 }]);
     all_wrappers(sink, "Named<String>", vec![Named { a: String::new() }, Named { a: "v".to_string() }]);
+    // second level: wrappers as leaves of every wrapper
+    all_wrappers(sink, "Newtype<String>", vec![Newtype(String::new()), Newtype("n".to_string())]);
+    all_wrappers(sink, "TupleS<u8>", vec![TupleS(0u8, 7), TupleS(255, 7)]);
+    all_wrappers(sink, "Two<Option<u8>>", vec![Two { a: None, b: 300 }, Two { a: Some(24u8), b: 0 }]);
+    all_wrappers(sink, "Adj<u8>", vec![Adj::Unit, Adj::New(1u8), Adj::Tup(24, 3), Adj::Str { a: 255 }]);
+    all_wrappers(sink, "Int<u8>", vec![Int::Unit, Int::Str { a: 24u8 }, Int::New(Named { a: 255 })]);
+    all_wrappers(sink, "Unt<u8>", vec![Unt::Str { a: 24u8, z: false }, Unt::Tup(255, true, false)]);
+    all_wrappers(sink, "Flat<u8>", vec![Flat { inner: Named { a: 24u8 }, z: 1 }]);
+    all_wrappers(sink, "Dflt<String>", vec![Dflt { a: "d".to_string(), d: 9, s: 0 }]);
+    all_wrappers(sink, "Vec<Named<u8>>", vec![vec![], vec![Named { a: 1u8 }, Named { a: 24 }]]);
+    all_wrappers(sink, "Vec<Option<u8>>", vec![vec![], vec![None, Some(24u8), None]]);
+    all_wrappers(sink, "Option<Ext<u8>>", vec![Some(Ext::Unit), Some(Ext::New(24u8)), Some(Ext::Str { a: 1 })]);
+    all_wrappers(sink, "Vec<Ext<String>>", vec![vec![Ext::Unit, Ext::New("x".to_string()), Ext::Tup(String::new(), 2), Ext::Str { a: "y".to_string() }]]);
+    all_wrappers(sink, "BTreeMap<String,Named<u8>>", vec![[("k".to_string(), Named { a: 1u8 }), ("l".to_string(), Named { a: 24 })].into_iter().collect::<BTreeMap<String, Named<u8>>>()]);
+    all_wrappers(sink, "(Ext<u8>,IterSeq)", vec![(Ext::New(1u8), IterSeq(vec![1, 2])), (Ext::Unit, IterSeq(vec![]))]);
+    all_wrappers(sink, "Vec<IterSeq>", vec![vec![IterSeq(vec![]), IterSeq(vec![24]), IterSeq(vec![1, 2])]]);
+    all_wrappers(sink, "Named<MapNone>", vec![Named { a: MapNone([("k".to_string(), 1u8)].into_iter().collect()) }]);
     // std types whose serde impls branch on is_human_readable(): both directions of the bridge must agree (compact form)
     wrappers(sink, "Ipv4Addr", vec![std::net::Ipv4Addr::new(0, 0, 0, 0), std::net::Ipv4Addr::new(127, 0, 24, 255)], false);
     wrappers(sink, "IpAddr", vec![std::net::IpAddr::V4(std::net::Ipv4Addr::new(10, 0, 0, 1)), std::net::IpAddr::V6(std::net::Ipv6Addr::LOCALHOST)], false);
